@@ -163,6 +163,28 @@ def run_config(cases, frontend, prefix):
             checks["notfound-href"] = "unusable-href" if "%3A//" in h else "ok"
         except (ValueError, IndexError):
             checks["notfound-href"] = "ok"
+        # a DELETE that fails half-way (disk full at each of its file-system steps): whatever the
+        # listing names afterwards has to resolve
+        from . import fsmon
+        verdict = "ok"
+        for k in range(1, 9):
+            fn = coll + "fd%d.ics" % k
+            w.request("PUT", fn, [("Content-Type", "text/calendar")], gamma.ics_event("fd-%d@example.com" % k, "fd"))
+            with fsmon.FaultInjector(w.root, k):
+                w.request("DELETE", fn)
+            r = w.request("PROPFIND", coll, [("Depth", "1"), ("Content-Type", "text/xml")], gamma.PROPFIND_ALL)
+            try:
+                rs, _ = alpha.parse_multistatus(r.body)
+            except ValueError:
+                verdict = "listing-status-%d" % r.status
+                break
+            for x in rs:
+                h = x.href or ""
+                if h.rstrip("/").endswith("fd%d.ics" % k):
+                    t = urllib.parse.urlsplit(h).path if "://" in h else h
+                    if w.raw("GET", t).status != 200:
+                        verdict = "listed-href-does-not-resolve"
+        checks["after-failed-delete"] = verdict
         if frontend == "wsgi":
             # the same application object reached through a second mount point (SCRIPT_NAME is a
             # property of the request, not of the application): every href it emits there has to
